@@ -1508,6 +1508,41 @@ fn BuildAndStoreHuffmanTree(
     }
 }
 
+#[cfg(brotli_verif)]
+pub fn verif_store_simple_huffman_tree(
+    depths: &[u8],
+    symbols: &mut [usize],
+    num_symbols: usize,
+    max_bits: usize,
+    storage_ix: &mut usize,
+    storage: &mut [u8],
+) {
+    StoreSimpleHuffmanTree(depths, symbols, num_symbols, max_bits, storage_ix, storage)
+}
+
+#[cfg(brotli_verif)]
+pub fn verif_build_and_store_huffman_tree(
+    histogram: &[u32],
+    histogram_length: usize,
+    alphabet_size: usize,
+    tree: &mut [HuffmanTree],
+    depth: &mut [u8],
+    bits: &mut [u16],
+    storage_ix: &mut usize,
+    storage: &mut [u8],
+) {
+    BuildAndStoreHuffmanTree(
+        histogram,
+        histogram_length,
+        alphabet_size,
+        tree,
+        depth,
+        bits,
+        storage_ix,
+        storage,
+    )
+}
+
 fn GetBlockLengthPrefixCode(len: u32, code: &mut usize, n_extra: &mut u32, extra: &mut u32) {
     *code = BlockLengthPrefixCode(len) as usize;
     *n_extra = kBlockLengthPrefixCode[*code].nbits;
